@@ -33,6 +33,22 @@ var verifRoot = func() string {
 	return "/verif"
 }()
 
+// evidenceDir / replaysDir: /verif/evidence and /verif/replays unless redirected (runs against a
+// patched scratch copy of the repository must not overwrite the evidence of the real tree).
+func evidenceDir() string {
+	if v := os.Getenv("VERIF_EVIDENCE_DIR"); v != "" {
+		return v
+	}
+	return filepath.Join(verifRoot, "evidence")
+}
+
+func replaysDir() string {
+	if v := os.Getenv("VERIF_REPLAYS_DIR"); v != "" {
+		return v
+	}
+	return filepath.Join(verifRoot, "replays")
+}
+
 func repoDir() string {
 	if v := os.Getenv("VERIF_REPO"); v != "" {
 		return v
@@ -276,7 +292,7 @@ func newEvidence(id, tier string, seed int64, level string) *Evidence {
 
 func (e *Evidence) write() {
 	e.WallS = time.Since(e.start).Seconds()
-	dir := filepath.Join(verifRoot, "evidence")
+	dir := evidenceDir()
 	os.MkdirAll(dir, 0o755)
 	b, _ := json.MarshalIndent(e, "", " ")
 	tmp := filepath.Join(dir, e.PropertyID+".json.tmp")
